@@ -7,7 +7,7 @@ from pv import common, threaded
 
 RULE = ("histories on a real Agent thread (InProcessCommunicationLayer) hosting 2-3 recording computations and a control "
         "computation, plus a second real agent whose Messaging forwards through the communication layer: 2-4 producer "
-        "threads post 20-120 uniquely numbered messages each to random destinations with types in {10,15,20}, locally "
+        "threads post 20-120 uniquely numbered messages each to random destinations (named like variables: d0, B2, Beta, A1, x_3 ...) with types in {10,15,20} or {10,15,19.5,19.999998,20}, locally "
         "or through the remote agent (one history in eight over a real HttpCommunicationLayer on 127.0.0.1); in 60% of the histories the agent also runs a periodic action; once idle, 1-3 tail "
         "messages are posted immediately before clean_shutdown(); one destination is registered late, by the agent thread itself or (a third) by another thread (earlier posts go "
         "through the retry path); in half the histories the agent thread starts only after a backlog exists; then "
@@ -51,7 +51,11 @@ def run_history(seed, lines=False):
             layers = [la, lb]
     A = Agent("A", layers[0] if http else InProcessCommunicationLayer())
     B = Agent("B", layers[1] if http else InProcessCommunicationLayer())
-    dests = ["d%d" % i for i in range(rng.randint(2, 3))]
+    # computation names are arbitrary identifiers (variables are often called B2, A1, x_3 ...)
+    dests = rng.sample(["d0", "d1", "d2", "B2", "Beta", "A1", "x_3", "v10"], rng.randint(2, 3))
+    # message types are numbers, not necessarily whole ones (the runtime itself re-injects stored messages at 19 - k*1e-6);
+    # the HTTP layer carries the type as an integer header, so fractional types stay within in-process histories
+    TYPES = [10, 15, 20] if http or rng.random() < 0.5 else [10, 15, 19.5, 19.999998, 20]
     comps = {}
     for d in dests:
         comps[d] = Rec(d)
@@ -299,6 +303,7 @@ def analyse(h):
     for (t, m, typ, tcall) in deq:
         if m not in enq:
             continue
+        typ = post[m]["type"]  # the type given by the poster (client boundary), not the one the queue entry carries
         avail_types = set()
         for m2, te in pending:
             if te >= tcall:
